@@ -42,6 +42,24 @@ type c16Case struct {
 	Advertise string `json:"advertise,omitempty"`
 }
 
+// closingAuth wraps a mechanism: right before the response of step At is handed to the client, another goroutine
+// closes (or quits) the smtp.Client - an exchange aborted from the client side (watchdog, shutdown handler).
+type closingAuth struct {
+	smtp.Auth
+	at, n  int
+	closer func()
+}
+
+func (a *closingAuth) Next(fromServer []byte, more bool) ([]byte, error) {
+	if a.n == a.at && a.closer != nil {
+		done := make(chan struct{})
+		go func() { defer close(done); a.closer() }()
+		<-done
+	}
+	a.n++
+	return a.Auth.Next(fromServer, more)
+}
+
 func c16Auth(c c16Case) smtp.Auth {
 	switch c.Mech {
 	case "PLAIN":
@@ -136,6 +154,9 @@ func runC16Case(r *ev.Run, c c16Case) {
 		r.Violate(ev.Violation{Key: key, What: what, Case: c, Observed: obs})
 	}
 	a := &authSrv{User: c.User, Pass: c.Pass, Iter: 64, Salt: []byte("c16salt"), Fault: c.Fault, FaultStep: c.FaultStep}
+	if strings.HasPrefix(c.Fault, "client-") {
+		a.Fault = "" // the server is healthy, the client side aborts
+	}
 	if c.WrongPass {
 		a.Pass = c.Pass + "x"
 	}
@@ -209,6 +230,12 @@ func runC16Case(r *ev.Run, c c16Case) {
 			sc.SetLogAuthData()
 		}
 		a := c16Auth(c)
+		switch c.Fault {
+		case "client-close":
+			a = &closingAuth{Auth: a, at: c.FaultStep, closer: func() { _ = sc.Close() }}
+		case "client-quit":
+			a = &closingAuth{Auth: a, at: c.FaultStep, closer: func() { _ = sc.Quit() }}
+		}
 		if aerr := sc.Auth(a); aerr == nil {
 			if sc.Mail(marker+"@sender.example") == nil {
 				_ = sc.Rcpt(marker + "@rcpt.example")
@@ -343,7 +370,7 @@ func faultName(c c16Case) string {
 
 func runC16(r *ev.Run, rep *ev.ReplayDoc) ev.Summary {
 	sum := ev.Summary{
-		Rule: "all mechanisms (PLAIN, LOGIN, CRAM-MD5, XOAUTH2, SCRAM-SHA-1/-256, -PLUS over TLS) x random high-entropy credentials (also with '%', blanks, non-ASCII, base64 specials) x server scripts {success, wrong password, 535 / 454 / malformed (non-base64) challenge / unexpected extra challenge / disconnect at every step of the exchange} x {capturing custom logger, log.Stdlog, log.JSONlog} x {default, SetLogAuthData(false)} x {mail.Client with a built-in auth type, mail.Client with WithSMTPAuthCustom, smtp.Client.Auth as first command} x server announcing {the mechanism, no AUTH keyword, other mechanisms only, HELO only} (the server accepts the command regardless), debug logging on; if the connection survives a message with marker addresses is sent. A control group with WithLogAuthData shows that the monitor sees secrets when they are logged. distinct by case",
+		Rule: "all mechanisms (PLAIN, LOGIN, CRAM-MD5, XOAUTH2, SCRAM-SHA-1/-256, -PLUS over TLS) x random high-entropy credentials (also with '%', blanks, non-ASCII, base64 specials) x server scripts {success, wrong password, 535 / 454 / malformed (non-base64) challenge / unexpected extra challenge / disconnect at every step of the exchange, the client closed or quit by another goroutine between two steps} x {capturing custom logger, log.Stdlog, log.JSONlog} x {default, SetLogAuthData(false)} x {mail.Client with a built-in auth type, mail.Client with WithSMTPAuthCustom, smtp.Client.Auth as first command} x server announcing {the mechanism, no AUTH keyword, other mechanisms only, HELO only} (the server accepts the command regardless), debug logging on; if the connection survives a message with marker addresses is sent. A control group with WithLogAuthData shows that the monitor sees secrets when they are logged. distinct by case",
 		Assumptions: []string{
 			"the server never echoes credentials in its reply texts (an echoing server is outside the quantifier)",
 			"forms searched: raw, base64 (std/url/raw), hex, Go-quoted, every client line of the AUTH exchange whose base64 decoding contains the secret, and that decoded text",
@@ -382,6 +409,16 @@ func runC16(r *ev.Run, rep *ev.ReplayDoc) ev.Summary {
 						c.Via = "direct"
 					}
 					cases = append(cases, c)
+					if !c.TLS && !isPlus(mech) && f == "" {
+						// the exchange is aborted from the client side: another goroutine closes / quits the client between two steps
+						for st2 := 0; st2 < 3; st2++ {
+							for _, cf := range []string{"client-close", "client-quit"} {
+								c3 := c
+								c3.Via, c3.Fault, c3.FaultStep = "direct", cf, st2
+								cases = append(cases, c3)
+							}
+						}
+					}
 					if !c.TLS && !isPlus(mech) && (f == "" || st == 0) {
 						// the same against servers that do not announce the mechanism (or AUTH at all) but accept the command
 						for ai, adv := range []string{"none", "other", "helo"} {
@@ -413,7 +450,10 @@ func runC16(r *ev.Run, rep *ev.ReplayDoc) ev.Summary {
 		if !c.TLS && rng.Intn(4) == 0 {
 			c.Via = "direct"
 		}
-		if !c.TLS && rng.Intn(5) == 0 {
+		if !c.TLS && rng.Intn(8) == 0 {
+			c.Via, c.Fault, c.FaultStep = "direct", gen.Pick(rng, []string{"client-close", "client-quit"}), rng.Intn(3)
+		}
+		if !c.TLS && c.Fault != "client-close" && c.Fault != "client-quit" && rng.Intn(5) == 0 {
 			c.Via = gen.Pick(rng, []string{"direct", "custom"})
 			c.Advertise = gen.Pick(rng, []string{"", "none", "other", "helo"})
 		}
